@@ -7,8 +7,9 @@ def key_fn(case, obs, verdict):
     # sized <the same nine fields> <maxammosize> <pads> <sizes>
     f = case.split(" ")
     o = obs.split(" ")
-    if f[0] in ("engine", "enginec"):
-        return "engine:%s%s:run=%s" % (f[1], "+preload" if f[2] == "1" else "", o[2] if len(o) > 2 else "?")
+    if f[0] in ("engine", "enginec", "enginef"):
+        return "engine:%s%s%s:run=%s" % (f[1], "+preload" if f[2] == "1" else "", "+chosencases" if f[0] == "enginef" else "",
+                                         o[2] if len(o) > 2 else "?")
     if f[0] == "nofile":
         return "%s:no-ammo-file:run=%s,sink-%s" % (f[1], o[3] if len(o) > 3 else "?", o[2] if len(o) > 2 else "?")
     if f[0] == "dec":
